@@ -48,11 +48,26 @@
 /* The start-up probe of the stacked-endpoint families runs their closed
  * executions outside any case: an oracle failure is then only noted. */
 static bool probe_mode, probe_failed;
+static char probe_clause[128], probe_detail[900];
+static void probe_note(const char *cl, const char *fmt, ...) __attribute__((format(printf, 2, 3)));
+static void
+probe_note(const char *cl, const char *fmt, ...)
+{
+    /* the first failure of an execution that runs in probe mode (kept so that
+     * it can be reported afterwards if it turns out to be the library's) */
+    va_list ap;
+    snprintf(probe_clause, sizeof probe_clause, "%s", cl);
+    va_start(ap, fmt);
+    vsnprintf(probe_detail, sizeof probe_detail, fmt, ap);
+    va_end(ap);
+}
 #define mc_fail(...)                                                           \
     do {                                                                       \
-        if (probe_mode)                                                        \
+        if (probe_mode) {                                                      \
+            if (!probe_failed)                                                 \
+                probe_note(__VA_ARGS__);                                       \
             probe_failed = true;                                               \
-        else                                                                   \
+        } else                                                                 \
             (mc_fail)(__VA_ARGS__);                                            \
     } while (0)
 #define CUR_FAILED() (probe_mode ? probe_failed : mc.cur_failed)
@@ -371,6 +386,7 @@ struct seg {
     unsigned char pfx[16];
     size_t npfx;
     bool bad_pfx, bad_content, too_many;
+    bool foreign; /* octets behind the prefix arrived from memory that is not the caller's (by value / staged) */
     struct { int blk; size_t off, len; } s[SEG_MAX];
     int ns;
     long calls;
@@ -407,13 +423,17 @@ seg_chunk(void *drv, const void *data, size_t n)
             }
     }
     if (blk < 0) {
-        /* not payload memory: prefix storage of the library */
-        if (g->ns == 0 && g->npfx + n <= sizeof g->pfx) {
-            memcpy(g->pfx + g->npfx, p, n);
-            g->npfx += n;
-        } else {
-            g->bad_pfx = true;
-        }
+        /* not payload memory of the caller: prefix storage of the library -- or
+         * payload octets that the library hands over by value or from a staging
+         * buffer of its own (they are real memory: read what fits).  Identifying
+         * payload by address is a technique of this family, not a sentence of the
+         * statement: such a case cannot be followed and is not judged (audit 6) */
+        const size_t room = sizeof g->pfx - g->npfx;
+        const size_t m = (g->ns == 0) ? (n < room ? n : room) : 0;
+        memcpy(g->pfx + g->npfx, p, m);
+        g->npfx += m;
+        if (m < n)
+            g->foreign = true;
         return (ssize_t)n;
     }
     if (g->first_answer && !g->first_done) {
@@ -586,10 +606,15 @@ judge_sink(const char *ep, int k, uint64_t n, const unsigned char *pay,
 
 /* prefix-object encoders: status >= 0, prefix view = the encoding, payload view
  * designates exactly the octets (pointer and length; it is a view) */
+/* The extent of the object's prefix storage is that of the member as compiled
+ * (sizeof obj->prefix_), not a constant of the harness: an object with more
+ * storage and the encoding anywhere inside it is fine (audit 6). */
+#define judge_obj(ep, k, n, pay, storage, prefix, payload, rc)                                    \
+    judge_obj_(ep, k, n, pay, storage, sizeof(storage), prefix, payload, rc)
 static bool
-judge_obj(const char *ep, int k, uint64_t n, const unsigned char *pay,
-          const unsigned char *prefix_storage, const ByteBuffer *prefix,
-          const ByteBuffer *payload, int rc)
+judge_obj_(const char *ep, int k, uint64_t n, const unsigned char *pay,
+           const unsigned char *prefix_storage, size_t storage_len, const ByteBuffer *prefix,
+           const ByteBuffer *payload, int rc)
 {
     unsigned char pfx[10];
     const size_t pl = ref_prefix(k, n, pfx);
@@ -606,8 +631,8 @@ judge_obj(const char *ep, int k, uint64_t n, const unsigned char *pay,
         return false;
     }
     /* where inside the object's storage the encoding sits is the implementation's business */
-    if (prefix->data < prefix_storage || prefix->data > prefix_storage + VARINT_64BIT_MAX_OCTETS
-        || prefix->used > (size_t)(prefix_storage + VARINT_64BIT_MAX_OCTETS - prefix->data)
+    if (prefix->data < prefix_storage || prefix->data > prefix_storage + storage_len
+        || prefix->used > (size_t)(prefix_storage + storage_len - prefix->data)
         || prefix->offset > prefix->used) {
         mc_fail(clause(ep, "prefix"), "prefix view is not inside the object's prefix storage (used=%zu offset=%zu)",
                 prefix->used, prefix->offset);
@@ -751,8 +776,8 @@ obj_is_frame(int k, uint64_t len, const unsigned char *pay, const LengthPrefixBu
     unsigned char pfx[10];
     const size_t pl = ref_prefix(k, len, pfx);
     const ByteBuffer *p = &lpb->prefix, *q = &lpb->payload;
-    if (p->data < lpb->prefix_ || p->data > lpb->prefix_ + VARINT_64BIT_MAX_OCTETS
-        || p->used > (size_t)(lpb->prefix_ + VARINT_64BIT_MAX_OCTETS - p->data) || p->offset > p->used)
+    if (p->data < lpb->prefix_ || p->data > lpb->prefix_ + sizeof lpb->prefix_
+        || p->used > (size_t)(lpb->prefix_ + sizeof lpb->prefix_ - p->data) || p->offset > p->used)
         return false;
     if (p->used - p->offset != pl || memcmp(p->data + p->offset, pfx, pl) != 0)
         return false;
@@ -1239,6 +1264,16 @@ enc_long(void)
 struct xseg { int blk; uint64_t off, len; };
 
 static void
+encmax_cap(void)
+{
+    static bool said;
+    if (!said)
+        mc_cap("a sink encoder hands its sink payload octets from memory that is not the caller's (by value / staging buffer): fake-extent cases (enc-max, enc-sum) not run / not judged");
+    said = true;
+}
+
+/* returns false when the case could not be followed (not judged) */
+static bool
 judge_seg(const char *ep, int k, uint64_t n, const struct xseg *xs, int nxs,
           const struct seg *g, ssize_t rc)
 {
@@ -1255,7 +1290,7 @@ judge_seg(const char *ep, int k, uint64_t n, const struct xseg *xs, int nxs,
                     (unsigned long long)n, kname[k], rc);
         else if (g->calls != 0)
             mc_fail(clause(ep, "refuses-overmax"), "refused (rc=%zd) after %ld sink calls", rc, g->calls);
-        return;
+        return true;
     }
     if (g->gave_up && !g->bad_pfx && g->npfx == pl && memcmp(g->pfx, pfx, pl) == 0 && !g->bad_content && !g->too_many
         && g->ns >= 1 && g->ns <= nxs) {
@@ -1269,18 +1304,25 @@ judge_seg(const char *ep, int k, uint64_t n, const struct xseg *xs, int nxs,
                 && (i + 1 < g->ns ? g->s[i].len == xs[i].len : g->s[i].len <= xs[i].len);
         if (sofar) {
             mc_log("not judged: %ld sink calls moved a prefix of the payload only", g->calls);
-            return;
+            return true;
         }
+    }
+    if ((g->foreign || g->npfx > pl) && g->npfx >= pl && memcmp(g->pfx, pfx, pl) == 0 && (rc >= 0 || g->gave_up)) {
+        /* the right prefix, then octets from memory that is not the caller's:
+         * payload handed over by value or from a staging buffer */
+        mc_log("not judged: octets behind the prefix were handed to the sink from memory that is not the caller's");
+        encmax_cap();
+        return false;
     }
     if (rc < 0) {
         mc_fail(clause(ep, "accepts"), "length %llu (%s) refused rc=%zd after %ld sink calls",
                 (unsigned long long)n, kname[k], rc, g->calls);
-        return;
+        return true;
     }
     if (g->bad_pfx || g->npfx != pl || memcmp(g->pfx, pfx, pl) != 0) {
         mc_fail(clause(ep, "prefix"), "emitted prefix (%zu octets) is not the %s encoding of %llu",
                 g->npfx, kname[k], (unsigned long long)n);
-        return;
+        return true;
     }
     bool same = !g->gave_up && !g->bad_content && !g->too_many && g->ns == nxs;
     for (int i = 0; same && i < nxs; ++i)
@@ -1289,16 +1331,119 @@ judge_seg(const char *ep, int k, uint64_t n, const struct xseg *xs, int nxs,
         mc_fail(clause(ep, "payload"), "emitted regions differ from the designated ones (first: block %d offset %zu length %zu; expected block %d offset %llu length %llu)",
                 g->ns ? g->s[0].blk : -1, g->ns ? g->s[0].off : 0, g->ns ? g->s[0].len : 0,
                 xs[0].blk, (unsigned long long)xs[0].off, (unsigned long long)xs[0].len);
-        return;
+        return true;
     }
     if ((uint64_t)rc != pl + n)
         mc_fail(clause(ep, "total"), "returned %zd, prefix+payload is %llu", rc, (unsigned long long)(pl + n));
+    return true;
 }
 
 #define REALBLK 16u
+
+/* The fake-extent families hand ACCEPTING sink encoders a buffer that claims
+ * 2^31 and more octets over 16 real ones, and recognise the payload by the
+ * pointer the sink is handed.  Both rest on the encoder passing the caller's
+ * memory straight to its sink, which the statement does not say: an encoder that
+ * reads its own input (staging the payload through a private buffer, emitting
+ * short pieces octet by octet) is legitimate, would run off the 16 real octets
+ * and could not be followed by address.  So, like dec-huge, the families are
+ * gated by a probe on real memory: the four sink encoders on a 300-octet payload
+ * (chunk list: 300 + 2 octets), 4 kinds; if any sink call that carries octets
+ * behind the prefix names memory outside the caller's blocks, the accepting
+ * sink-encoder cases are numbered but not run (class encmax-not-run, a cap).
+ * Refusals (nothing is read before a refusal) and the object encoders (views,
+ * nothing is read) still run. */
+struct eprobe {
+    const unsigned char *lo[2];
+    size_t len[2];
+    size_t pl, seen;
+    long calls;
+    bool foreign;
+};
+
+static ssize_t
+eprobe_chunk(void *drv, const void *data, size_t n)
+{
+    struct eprobe *e = drv;
+    const unsigned char *p = data;
+    if (++e->calls > 4096)
+        return -EIO;
+    if (n != 0 && e->seen + n > e->pl) {
+        bool inside = false;
+        for (int b = 0; b < 2; ++b)
+            if (e->lo[b] != NULL && p >= e->lo[b] && n <= e->len[b] && p <= e->lo[b] + (e->len[b] - n))
+                inside = true;
+        if (!inside)
+            e->foreign = true;
+    }
+    e->seen += n;
+    return (ssize_t)n;
+}
+
+static bool encmax_runnable = true;
+
 static void
+encmax_probe(void)
+{
+    static const int ks[4] = { K_VAR, K_LE32, K_BE32, K_VARW };
+    const bool was_active = mc.active;
+    mc.active = false;
+    const size_t L = 300;
+    unsigned char *mem = mc_exact(L + 2u), *c1 = mc_exact(2);
+    for (size_t i = 0; i < L + 2u; ++i)
+        mem[i] = pat(i);
+    c1[0] = pat(7);
+    c1[1] = pat(8);
+    for (int ki = 0; ki < 4 && encmax_runnable; ++ki)
+        for (int ep = EP_MEM_SINK; ep <= EP_CHUNKS_SINK && encmax_runnable; ++ep) {
+            const int k = ks[ki];
+            struct eprobe e;
+            memset(&e, 0, sizeof e);
+            unsigned char tmp[10];
+            e.lo[0] = mem;
+            e.len[0] = L + 2u;
+            Sink s;
+            chunk_sink_init(&s, eprobe_chunk, &e);
+            ByteBuffer b = { mem, L + 2u, L + 1u, 1 };
+            if (ep == EP_MEM_SINK) {
+                e.pl = ref_prefix(k, L, tmp);
+                (void)X_memory_to_sink(k, &s, mem + 1, L);
+            } else if (ep == EP_BUF_SINK) {
+                e.pl = ref_prefix(k, L, tmp);
+                (void)X_buffer_to_sink(k, &s, &b);
+            } else if (ep == EP_BUF_SINK_N) {
+                b.used = L + 2u;
+                e.pl = ref_prefix(k, L, tmp);
+                (void)X_buffer_to_sink_n(k, &s, &b, L);
+            } else {
+                ByteBuffer arr[2] = { { mem, L + 2u, L + 1u, 1 }, { c1, 2, 2, 0 } };
+                ByteChunks bc = { 2, 0, arr };
+                e.lo[1] = c1;
+                e.len[1] = 2;
+                e.pl = ref_prefix(k, L + 2u, tmp);
+                (void)X_chunks_to_sink(k, &s, &bc);
+            }
+            if (e.foreign)
+                encmax_runnable = false;
+        }
+    free(mem);
+    free(c1);
+    mc.active = was_active;
+    if (!encmax_runnable)
+        encmax_cap();
+}
+
+/* true: this case is one the probe's finding forbids to run */
+static bool
+encmax_gated(int k, enum ep ep, uint64_t n)
+{
+    return !encmax_runnable && ep >= EP_MEM_SINK && ref_verdict(k, n, true) != V_REFUSE;
+}
+
+static bool
 run_max(int k, enum ep ep, uint64_t n, int variant, uint64_t first_answer)
 {
+    bool judged = true;
     unsigned char *blk[SEG_BLOCKS];
     struct seg g;
     memset(&g, 0, sizeof g);
@@ -1351,7 +1496,9 @@ run_max(int k, enum ep ep, uint64_t n, int variant, uint64_t first_answer)
             rc = X_buffer_to_sink(k, &s, &b);
         else
             rc = X_buffer_to_sink_n(k, &s, &b, n);
-        judge_seg(name, k, n, xs, 1, &g, rc);
+        judged = judge_seg(name, k, n, xs, 1, &g, rc);
+        if (!judged)
+            break;
         if (isn && rc >= 0 && ref_verdict(k, n, true) != V_REFUSE)
             check_advance(name, &b, blk[0], size, used, off, n);
         else if (isn && !mc.cur_failed)
@@ -1379,18 +1526,20 @@ run_max(int k, enum ep ep, uint64_t n, int variant, uint64_t first_answer)
         } else {
             ByteChunks bc = { nch, 1, arr };
             const ssize_t rc = X_chunks_to_sink(k, &s, &bc);
-            judge_seg(name, k, n, xs, 2, &g, rc);
+            judged = judge_seg(name, k, n, xs, 2, &g, rc);
         }
         break;
     }
     }
     for (int i = 0; i < SEG_BLOCKS; ++i)
         free(blk[i]);
+    return judged;
 }
 
 static void
 enc_max(void)
 {
+    encmax_probe();
     static const uint64_t N[] = {
         (1ull << 31) - 1, 1ull << 31, (1ull << 32) - 2, (1ull << 32) - 1, 1ull << 32, (1ull << 32) + 1,
         SSZ_MAX - 10, SSZ_MAX - 1, SSZ_MAX, SSZ_MAX + 1, UINT64_MAX,
@@ -1403,8 +1552,15 @@ enc_max(void)
                     if (!mc_case("enc-max k=%s ep=%s n=%llu%s", kname[k], epname[ep],
                                  (unsigned long long)N[i], ch ? (variant ? " with-empty-chunk" : " two-chunks") : ""))
                         continue;
-                    run_max(k, (enum ep)ep, N[i], variant, 0);
-                    mc_end(true, verdict_outcome(ref_verdict(k, N[i], ep >= EP_MEM_SINK), 2));
+                    if (encmax_gated(k, (enum ep)ep, N[i])) {
+                        mc_log("not run: the probe found a sink encoder that hands its sink payload octets from memory that is not the caller's");
+                        mc_end(false, "encmax-not-run");
+                        continue;
+                    }
+                    if (run_max(k, (enum ep)ep, N[i], variant, 0))
+                        mc_end(true, verdict_outcome(ref_verdict(k, N[i], ep >= EP_MEM_SINK), 2));
+                    else
+                        mc_end(false, "encmax-not-judged");
                 }
             }
     /* the same maxima into a sink whose first payload call takes only part of
@@ -1421,8 +1577,15 @@ enc_max(void)
                     if (!mc_case("enc-max k=%s ep=%s n=%llu first-sink-answer=%llu", kname[k], epname[ep],
                                  (unsigned long long)N[i], (unsigned long long)A[a]))
                         continue;
-                    run_max(k, (enum ep)ep, N[i], 0, A[a]);
-                    mc_end(true, "encmax-partial-sink");
+                    if (encmax_gated(k, (enum ep)ep, N[i])) {
+                        mc_log("not run: the probe found a sink encoder that hands its sink payload octets from memory that is not the caller's");
+                        mc_end(false, "encmax-not-run");
+                        continue;
+                    }
+                    if (run_max(k, (enum ep)ep, N[i], 0, A[a]))
+                        mc_end(true, "encmax-partial-sink");
+                    else
+                        mc_end(false, "encmax-not-judged");
                 }
 }
 /* ------------------------------------------------------------------------ */
@@ -1526,9 +1689,13 @@ run_dec(int k, enum dec d, size_t len, size_t cap, size_t bused, size_t boff, en
             if (rc < 0 || r.n != len || !payload_is(r.buf, len, 0))
                 mc_fail(clause(name, "returns-payload"), "sink with room for %zu, frame of %zu: rc=%zd, sink holds %zu octets",
                         cap, len, rc, r.n);
-        } else if (rc != -ENOMEM) {
-            mc_fail(clause(name, "enomem"), "sink with room for %zu, frame of %zu: rc=%zd, expected out-of-memory (%d)",
-                    cap, len, rc, -ENOMEM);
+        } else if (rc >= 0 || r.n > cap) {
+            /* whether a sink has room is the sink's answer; it reaches the caller
+             * through the plumbing of endpoints/core.c, whose error code the
+             * statement does not fix (C17 admits any negative code there): the
+             * failure has to be reported and nothing delivered beyond the room */
+            mc_fail(clause(name, "enomem"), "sink with room for %zu, frame of %zu: rc=%zd, sink holds %zu octets; expected a failure (negative code) and nothing beyond the sink's room",
+                    cap, len, rc, r.n);
         }
         free(r.buf);
     }
@@ -2269,9 +2436,10 @@ stream_two_cuts(void)
 /* 2..4 chunks of (nearly) equal size, none of them near a power-of-two
  * boundary, whose unread octets add up to a total around 2^31 / 2^32: fake
  * extents over 16 real octets each, segment sink. */
-static void
+static bool
 run_sum(int k, enum ep ep, uint64_t total, int parts)
 {
+    bool judged = true;
     unsigned char *blk[SEG_BLOCKS];
     struct seg g;
     memset(&g, 0, sizeof g);
@@ -2306,10 +2474,11 @@ run_sum(int k, enum ep ep, uint64_t total, int parts)
     } else {
         ByteChunks bc = { (size_t)parts, 0, arr };
         const ssize_t rc = X_chunks_to_sink(k, &s, &bc);
-        judge_seg(epname[ep], k, total, xs, parts, &g, rc);
+        judged = judge_seg(epname[ep], k, total, xs, parts, &g, rc);
     }
     for (int i = 0; i < SEG_BLOCKS; ++i)
         free(blk[i]);
+    return judged;
 }
 
 static void
@@ -2325,8 +2494,15 @@ enc_sum(void)
                     if (!mc_case("enc-sum k=%s ep=%s total=%llu in %d chunks of equal size", kname[k], epname[ep],
                                  (unsigned long long)T[i], parts))
                         continue;
-                    run_sum(k, ep, T[i], parts);
-                    mc_end(true, ref_verdict(k, T[i], v != 0) == V_ACCEPT ? "encsum-accept" : "encsum-refuse");
+                    if (encmax_gated(k, ep, T[i])) {
+                        mc_log("not run: the probe found a sink encoder that hands its sink payload octets from memory that is not the caller's");
+                        mc_end(false, "encmax-not-run");
+                        continue;
+                    }
+                    if (run_sum(k, ep, T[i], parts))
+                        mc_end(true, ref_verdict(k, T[i], v != 0) == V_ACCEPT ? "encsum-accept" : "encsum-refuse");
+                    else
+                        mc_end(false, "encmax-not-judged");
                 }
 }
 
@@ -2357,14 +2533,18 @@ enc_sum(void)
 struct objview {
     bool frame;      /* both views non-empty and the prefix view lies inside the object's storage */
     bool judgeable;  /* false: a non-empty prefix view outside the storage (not dereferenced) */
-    unsigned char pfx[VARINT_64BIT_MAX_OCTETS];
+    unsigned char pfx[sizeof(((LengthPrefixBuffer *)0)->prefix_) > sizeof(((LengthPrefixChunks *)0)->prefix_)
+                          ? sizeof(((LengthPrefixBuffer *)0)->prefix_)
+                          : sizeof(((LengthPrefixChunks *)0)->prefix_)];
     size_t npfx;
     uintptr_t pay;
     size_t npay;
 };
 
+#define objview_take(v, storage, prefix, payload) objview_take_(v, storage, sizeof(storage), prefix, payload)
 static void
-objview_take(struct objview *v, const unsigned char *storage, const ByteBuffer *prefix, const ByteBuffer *payload)
+objview_take_(struct objview *v, const unsigned char *storage, size_t storage_len, const ByteBuffer *prefix,
+              const ByteBuffer *payload)
 {
     memset(v, 0, sizeof *v);
     v->judgeable = true;
@@ -2372,8 +2552,8 @@ objview_take(struct objview *v, const unsigned char *storage, const ByteBuffer *
     const bool pay_empty = payload != NULL && (payload->data == NULL || payload->offset >= payload->used);
     if (pfx_empty || pay_empty)
         return;
-    if (prefix->data < storage || prefix->data > storage + VARINT_64BIT_MAX_OCTETS
-        || prefix->used > (size_t)(storage + VARINT_64BIT_MAX_OCTETS - prefix->data)) {
+    if (prefix->data < storage || prefix->data > storage + storage_len
+        || prefix->used > (size_t)(storage + storage_len - prefix->data)) {
         v->judgeable = false;
         return;
     }
@@ -2827,7 +3007,9 @@ run_alias_dec(int k, enum dec d, enum srckind sk, size_t lead, const size_t *len
             break;
         }
         if (tight) {
-            if (rc != -ENOMEM)
+            /* sink decoder: the out-of-room answer is the sink's and travels through
+             * plumbing; any negative code (see run_dec) */
+            if (d == D_SINK ? (rc >= 0 || fill > size) : rc != -ENOMEM)
                 mc_fail(clause(name, "enomem"), "source reads the destination buffer's unread content; room for %zu, frame of %zu: rc=%zd, expected out-of-memory (%d)",
                         size - before, len, rc, -ENOMEM);
             break;
@@ -3537,6 +3719,59 @@ reent_probe(void)
         mc_cap("the library is not re-entrant (an execution is only wrong when a sink/source driver calls the library again): reent-* cases not run");
 }
 
+/* One reent-* case under the probe's own rule (audit 6): the start-up probe
+ * makes lower calls with an own payload of 2 octets only, so a library whose
+ * non-reentrancy depends on the size of the lower call (a static staging buffer
+ * used for payloads of a certain range) passes it.  The execution therefore runs
+ * with failures noted, not reported; if it failed and nested calls were made, the
+ * same execution is run again with the nested calls switched off; if that passes,
+ * the execution is only wrong when a driver calls the library again: the library
+ * is not re-entrant here, the case is not judged (class reent-not-reentrant, a
+ * cap).  Otherwise the noted failure is reported. */
+static void
+reent_case_run(const struct reent_outer *o, bool enc, const struct inner *in, size_t piece, const char *outcome_nested)
+{
+    probe_mode = true;
+    probe_failed = false;
+    const bool nested = enc ? run_reent_enc(o->k, o->ep, o->style, o->len, in)
+                            : run_reent_dec(o->k, o->d, o->style, o->len, in, piece, o->side);
+    const bool failed = probe_failed;
+    probe_mode = false;
+    probe_failed = false;
+    if (failed && nested) {
+        char cl[sizeof probe_clause], det[sizeof probe_detail];
+        memcpy(cl, probe_clause, sizeof cl);
+        memcpy(det, probe_detail, sizeof det);
+        struct inner quiet = *in;
+        quiet.trigger = INT_MAX; /* no driver call has that index: the lower call is never made */
+        const bool was_active = mc.active;
+        mc.active = false;
+        probe_mode = true;
+        if (enc)
+            (void)run_reent_enc(o->k, o->ep, o->style, o->len, &quiet);
+        else
+            (void)run_reent_dec(o->k, o->d, o->style, o->len, &quiet, 0, o->side);
+        const bool quiet_ok = !probe_failed;
+        probe_mode = false;
+        probe_failed = false;
+        mc.active = was_active;
+        if (quiet_ok) {
+            mc_log("not judged: with the lower calls this execution fails (%s: %s), without them it passes: the library is not re-entrant here (the statement does not say it is)",
+                   cl, det);
+            static bool said;
+            if (!said)
+                mc_cap("an execution is only wrong when a sink/source driver calls the library again (not re-entrant for these sizes): such reent-* cases not judged");
+            said = true;
+            mc_end(false, "reent-not-reentrant");
+            return;
+        }
+        (mc_fail)(cl, "%s", det);
+    } else if (failed) {
+        (mc_fail)(probe_clause, "%s", probe_detail);
+    }
+    mc_end(nested, !nested ? "reent-not-reached" : outcome_nested);
+}
+
 static void
 reent_enc_case(const struct inner *in, void *arg)
 {
@@ -3555,8 +3790,7 @@ reent_enc_case(const struct inner *in, void *arg)
         reent_not_run();
         return;
     }
-    const bool nested = run_reent_enc(o->k, o->ep, o->style, o->len, in);
-    mc_end(nested, !nested ? "reent-not-reached" : in->own ? "reent-enc" : "reent-enc-tunnel");
+    reent_case_run(o, true, in, 0, in->own ? "reent-enc" : "reent-enc-tunnel");
 }
 
 static void
@@ -3578,8 +3812,7 @@ reent_dec_case(const struct inner *in, void *arg)
         reent_not_run();
         return;
     }
-    const bool nested = run_reent_dec(o->k, o->d, o->style, o->len, in, 0, o->side);
-    mc_end(nested, !nested ? "reent-not-reached" : o->side ? "reent-dec-sink" : "reent-dec");
+    reent_case_run(o, false, in, 0, o->side ? "reent-dec-sink" : "reent-dec");
 }
 
 static void
@@ -3632,8 +3865,8 @@ reentrancy(bool T)
                                 memset(&in, 0, sizeof in);
                                 in.op = op;
                                 in.k = ik;
-                                const bool nested = run_reent_dec(o.k, (enum dec)d, o.style, o.len, &in, PIECE[pi], 0);
-                                mc_end(nested, nested ? "reent-dec-tunnel" : "reent-not-reached");
+                                o.d = (enum dec)d;
+                                reent_case_run(&o, false, &in, PIECE[pi], "reent-dec-tunnel");
                             }
                 }
 }
@@ -3667,11 +3900,11 @@ main(int argc, char **argv)
     dec_alias(T ? 5 : 3);
     reentrancy(T);
     enc_objhist(T ? 4 : 3);
-    char bound[3800];
+    char bound[4200];
     snprintf(bound, sizeof bound,
              "6 kinds + the varint kind through the lenp_* entry points of the header (all families); encoders: buffer states size<=%d x n<=rest, chunk lists <=%d chunks (rest 0..3, lead/slack 0..1, active<=%d), "
              "lengths 1..1100 + 65534..65536, maxima 2^31,2^32,SSIZE_MAX +-1 via fake buffers (also into a sink whose first call takes "
-             "1, 2^31, 2^32-11, 2^32-4, 2^32-5 or 2^32 octets); _n requests beyond every maximum and beyond the content (256 .. SIZE_MAX, "
+             "1, 2^31, 2^32-11, 2^32-4, 2^32-5 or 2^32 octets; accepting sink-encoder cases only if a probe finds that the sink is handed the caller's memory); _n requests beyond every maximum and beyond the content (256 .. SIZE_MAX, "
              "each straddling 2^32, SSIZE_MAX, SIZE_MAX by the buffer size) on every buffer state size<=%d (refused, then a second slice; "
              "or exactly the unread octets framed); "
              "sink encoders with lengths <=%d into chunk/octet sinks under every placement of <=%d answers from {1, asked-1, 0, EINTR, EAGAIN} "
@@ -3688,7 +3921,7 @@ main(int argc, char **argv)
              "(same lengths; source of the three styles; decode_source_to_sink also with a stacked sink) with a driver that calls one of the 11 entry points "
              "(6 kinds, own payload of %s octets, or - sink drivers, the four sink encoders - exactly what it was handed) on lower endpoints before or after "
              "its own job in its driver call 0..%d or in each of the first 8; sources that decode what they hand out from a lower stream carrying the outer "
-             "stream in frames of 1, 2, 5 octets (3 decoders x 6 kinds) - stacked endpoints only if a start-up probe finds the library re-entrant; "
+             "stream in frames of 1, 2, 5 octets (3 decoders x 6 kinds) - stacked endpoints only if a start-up probe finds the library re-entrant, a failing case re-run without the nested calls and not judged if it then passes; "
              "prefix-object histories: every sequence of <= %d calls on one LengthPrefixBuffer over {memory_encode, buffer_encode, buffer_encode_n} x "
              "{1, 5 octets accepted; maximum+1, 2^64-1 octets refused} and of <= %d chunks_use calls on one LengthPrefixChunks (list totals 3, 6, maximum+1, "
              "2^64-1), the object inspected after every refused call",
